@@ -4,6 +4,7 @@
 //! behaviours / cases emitted by TLC against the implementation and
 //! compares the projected real state with the specification's state.
 pub mod account_world;
+pub mod archive_world;
 pub mod crash_world;
 pub mod eventlog_world;
 pub mod server_world;
